@@ -48,6 +48,10 @@ func (d plainMem) Size() uint32           { return 1 << 24 }
 func (d plainMem) Clear()                 {}
 func (d plainMem) Dump(uint32) []byte     { return nil }
 
+// concTogether: set in the concurrent child process. Workloads that own several related objects (emitter-clones) drive all of them at
+// the same time, one goroutine each, when it is set, and one at a time on separate families when it is not (the sequential reference).
+var concTogether bool
+
 // every workload builds its own instances from scratch and returns a canonical result string
 var workloads = map[string]func(seed uint64) string{
 	"cpu-primary": func(seed uint64) string {
@@ -164,6 +168,161 @@ var workloads = map[string]func(seed uint64) string{
 		e.WriteTextTo(&txt)
 		return fmt.Sprintf("%v %x|%s|%s", err, e.Bytes(), hex.String(), txt.String())
 	},
+	// emitter-clones: one parent emitter with labels that have 1..9 unresolved references, several emitters derived from it by
+	// Clone; the parent and every clone are separately owned objects and go on emitting (more references to the same labels, own
+	// labels), each driven by its own goroutine. Every participant is then completed on its own (a clone is appended to a twin of the
+	// parent), the labels are defined and Finalize runs. Reference (concTogether = false): only one participant of the family is
+	// driven at all - "the result it produces when run alone".
+	"emitter-clones": func(seed uint64) string {
+		r := prng.New(seed)
+		type eop struct {
+			kind  int // 0 NOP, 1 branch to label, 2 JMP_abs label, 3 LDA_abs, 4 define own label + branch back to it
+			label string
+			arg   uint16
+		}
+		run := func(e *asm.Emitter, ops []eop) {
+			for _, o := range ops {
+				switch o.kind {
+				case 0:
+					e.NOP()
+				case 1:
+					switch o.arg % 3 {
+					case 0:
+						e.BEQ(o.label)
+					case 1:
+						e.BNE(o.label)
+					default:
+						e.BRA(o.label)
+					}
+				case 2:
+					e.JMP_abs(o.label)
+				case 3:
+					e.LDA_abs(o.arg)
+				case 4:
+					e.Label(o.label)
+					e.DEX()
+					e.BNE(o.label)
+				}
+			}
+		}
+		base := 0x008000 + uint32(r.N(0x100))
+		nl := 1 + r.N(3)
+		labels := make([]string, nl)
+		short := make([]bool, nl) // referenced by relative branches (otherwise by absolute jumps)
+		var prefix []eop
+		for li := range labels {
+			labels[li] = fmt.Sprintf("l%d", li)
+			short[li] = r.Bool()
+			for k := 1 + r.N(9); k > 0; k-- { // 1..9 references pending at Clone time
+				if short[li] {
+					prefix = append(prefix, eop{kind: 1, label: labels[li], arg: r.U16()})
+				} else {
+					prefix = append(prefix, eop{kind: 2, label: labels[li]})
+				}
+			}
+		}
+		mkParent := func() *asm.Emitter {
+			e := asm.NewEmitter(make([]byte, 0x200), true)
+			e.SetBase(base)
+			e.SEP(0x30)
+			run(e, prefix)
+			return e
+		}
+		np := 3 + r.N(3) // participant 0 is the parent itself, the others are clones
+		progs := make([][]eop, np)
+		for i := range progs {
+			for k := r.N(5); k > 0; k-- {
+				progs[i] = append(progs[i], eop{kind: 0})
+			}
+			for li := range labels {
+				for k := r.N(4); k > 0; k-- {
+					if short[li] {
+						progs[i] = append(progs[i], eop{kind: 1, label: labels[li], arg: r.U16()})
+					} else {
+						progs[i] = append(progs[i], eop{kind: 2, label: labels[li]})
+					}
+				}
+			}
+			if r.Bool() {
+				progs[i] = append(progs[i], eop{kind: 4, label: fmt.Sprintf("own%d", i)})
+			}
+		}
+		complete := func(e *asm.Emitter) string {
+			for _, l := range labels {
+				e.Label(l)
+			}
+			e.RTS()
+			if err := e.Finalize(); err != nil {
+				return "finalize: error" // which error comes first depends on Go's map order
+			}
+			var txt bytes.Buffer
+			e.WriteTextTo(&txt)
+			return fmt.Sprintf("%x|%s", e.Bytes(), txt.String())
+		}
+		family := func() (parent *asm.Emitter, members []*asm.Emitter) {
+			parent = mkParent()
+			members = []*asm.Emitter{parent}
+			for i := 1; i < np; i++ {
+				members = append(members, parent.Clone(make([]byte, 0x80)))
+			}
+			return
+		}
+		finish := func(i int, m *asm.Emitter) (res string) {
+			defer func() {
+				if rr := recover(); rr != nil {
+					res = fmt.Sprint("panic: ", rr)
+				}
+			}()
+			if i == 0 {
+				return complete(m)
+			}
+			twin := mkParent()
+			twin.Append(m)
+			return complete(twin)
+		}
+		out := make([]string, np)
+		if concTogether {
+			_, members := family()
+			start := make(chan struct{})
+			var wg sync.WaitGroup
+			for i := range members {
+				wg.Add(1)
+				go func(i int) {
+					defer wg.Done()
+					defer func() {
+						if rr := recover(); rr != nil {
+							out[i] = fmt.Sprint("panic: ", rr)
+						}
+					}()
+					<-start
+					run(members[i], progs[i])
+				}(i)
+			}
+			close(start)
+			wg.Wait()
+			for i, m := range members {
+				if out[i] == "" {
+					out[i] = finish(i, m)
+				}
+			}
+		} else {
+			for i := 0; i < np; i++ {
+				_, members := family()
+				func() {
+					defer func() {
+						if rr := recover(); rr != nil {
+							out[i] = fmt.Sprint("panic: ", rr)
+						}
+					}()
+					run(members[i], progs[i])
+				}()
+				if out[i] == "" {
+					out[i] = finish(i, members[i])
+				}
+			}
+		}
+		return strings.Join(out, " || ")
+	},
 	"rom": func(seed uint64) string {
 		r := prng.New(seed)
 		img := make([]byte, 0x10000)
@@ -266,6 +425,7 @@ func runConcBurst(kind string) {
 }
 
 func runConcChild() {
+	concTogether = true
 	if k := os.Getenv("VH_CONC_BURST"); k != "" {
 		runConcBurst(k)
 		return
@@ -414,7 +574,7 @@ func runConc() {
 	rep.Evaluations = int64(n + bursts)
 	rep.Distinct = int64(len(workloads))
 	rep.Rule = "workloads (each builds its own instances): primary CPU + bus + disassembler 150 steps, cpualt 150 steps, a cpualt CPU on a partly attached bus reading open-bus addresses, emulator.System RunUntil with Logger and OnWDM, Emitter program with labels/Finalize/" +
-		"listings, ROM header read/write + BusReader, stateless mapper/colour sweeps; all instances of all kinds run concurrently (one goroutine each, 3 rounds) in a -race build and are compared with the " +
+		"listings, emitter families (a parent with labels that have 1..9 unresolved references, 2..4 clones; parent and clones each add references to the same labels on their own goroutine, are completed separately and finalized; reference: each participant driven alone), ROM header read/write + BusReader, stateless mapper/colour sweeps; all instances of all kinds run concurrently (one goroutine each, 3 rounds) in a -race build and are compared with the " +
 		"sequential results; before that, per workload kind, a fresh -race process whose first use of the library is 12 instances of that kind released by a barrier (concurrent lazy initialisation); evaluations = concurrent workload executions compared"
 	rep.Emit()
 }
